@@ -17,6 +17,9 @@ def check(case):
     got = lib(lambda: FMAtomicSets().execute(fm).get_result())
     if isinstance(got, Raised):
         return [(f"C15.raised:{got.label}", got.text)]
+    again = lib(lambda: (_bool.long_lived(FMAtomicSets).execute(fm), _bool.long_lived(FMAtomicSets).execute(fm).get_result())[1])
+    if isinstance(again, Raised) or sorted(sorted(f.name for f in s) for s in again) != sorted(sorted(f.name for f in s) for s in got):
+        out.append(("C15.reused-object-differs", "a long-lived FMAtomicSets object returns something else than a fresh one"))
     sets = [[getattr(f, "name", repr(f)) for f in s] for s in got]
     flat = [n for s in sets for n in s]
     names = build.names(case)
